@@ -222,3 +222,73 @@ add_missing_atom = FunctionContract(
             ("molecule.add_edge(neighbour_res_idx, res_idx)", "molecule.add_edge(neighbour_res_idx, neighbour_res_idx)")],
 )
 CONTRACTS.append(add_missing_atom)
+
+
+# ------------------------------------------------------------------ repair_graph: marking the atoms beyond the match
+def setup_mark(cx):
+    eng = cx.eng
+    from pyvc.builtins import getitem, setitem, contains
+    fnodes = cx.val('found_nodes', TSet(TInt))                         # the atoms of the residue as found in the input
+    match = cx.val('match', TMap(RefIdx, TInt))                         # reference atom -> input atom (after repair_residue)
+    cx.spec_env['found_nodes'], cx.spec_env['match'] = fnodes, match
+    MARK = cx.heap('MARKED', cx.box('MARKED', TSet(TInt)))              # molecule.nodes[idx]['PTM_atom'] = True
+    FMARK = cx.heap('FOUND_MARKED', cx.box('FOUND_MARKED', TSet(TInt))) # found.nodes[idx]['PTM_atom'] = True
+    REMOVED = cx.heap('REMOVED', cx.box('REMOVED', TSet(TInt)))         # molecule.remove_node(idx)
+    requested = cx.uf('requested', [TInt], TBool)                       # the atom carries a mutation or modification request
+
+    def view(heap, with_get):
+        def item(e, n):
+            ne = to_z3(n, TInt)
+            o = Obj('atomdict')
+
+            def setit(e2, k, v):
+                if k != 'PTM_atom' or v is not True:
+                    raise EngineError('node[%r] = %r' % (k, v))
+                heap.e = z3.Store(heap.e, ne, True)
+            o.attrs['__setitem__'] = Builtin(setit, 'node[]=')
+            if with_get:
+                # .get('mutation') or .get('modification'): truthy iff the atom carries a request
+                o.attrs['get'] = Builtin(lambda e2, k, d=None: (wrap(TBool, requested(ne)) if k == 'mutation' else False)
+                                         if k in ('mutation', 'modification') else (_ for _ in ()).throw(EngineError('node.get(%r)' % (k,))), 'node.get')
+            return o
+        nv = Obj('NodeView', __getitem__=Builtin(item, 'nodes[]'))
+        return nv
+    fnv = view(FMARK, False)
+    fnv.__dict__['iter'] = fnodes
+    found = Obj('Graph', nodes=fnv)
+
+    def remove_node(e, n):
+        REMOVED.e = z3.Store(REMOVED.e, to_z3(n, TInt), True)
+    molecule = Obj('Molecule', nodes=view(MARK, True), remove_node=Builtin(remove_node, 'molecule.remove_node'))
+    res = {'found': found, 'match': match}
+    rg = Obj('reference_graph', nodes=Obj('NodeView', __getitem__=Builtin(lambda e, r: res, 'reference_graph.nodes[]')))
+    return dict(molecule=molecule, reference_graph=rg, residx=cx.val('residx', TInt))
+
+
+SPEC_MARK = {
+    # the atom is the partner of some reference atom
+    'matched': "lambda n: exists(lambda r: r in match and match[r] == n, RefIdx)",
+    'beyond': "lambda n: n in found_nodes and not matched(n)",
+}
+mark_extra = FunctionContract(
+    F, 'repair_graph', 'C04', short='repair_graph[marking]', setup=setup_mark, spec_defs=SPEC_MARK, spec_env=dict(RefIdx=RefIdx),
+    region=dict(within=["for residx in reference_graph:"], start="found = reference_graph.nodes[residx]['found']"),
+    ensures=[
+        # exactly the atoms of the residue that the match does not reach are marked as unrecognised - in the molecule and in
+        # the residue's own graph -, and of those exactly the ones that carry a mutation / modification request are removed
+        "forall(lambda n: (n in MARKED) == (n in old(MARKED) or beyond(n)))",
+        "forall(lambda n: (n in FOUND_MARKED) == (n in old(FOUND_MARKED) or beyond(n)))",
+        "forall(lambda n: (n in REMOVED) == (n in old(REMOVED) or (beyond(n) and requested(n))))",
+    ],
+    modifies=['MARKED', 'FOUND_MARKED', 'REMOVED'],
+    loops={'L1': LoopSpec(inv=[
+        "forall(lambda n: (n in MARKED) == (n in old(MARKED) or exists(lambda q: 0 <= q and q < _i and _itL1(q) == n)))",
+        "forall(lambda n: (n in FOUND_MARKED) == (n in old(FOUND_MARKED) or exists(lambda q: 0 <= q and q < _i and _itL1(q) == n)))",
+        "forall(lambda n: (n in REMOVED) == (n in old(REMOVED) or (requested(n) and exists(lambda q: 0 <= q and q < _i and _itL1(q) == n))))",
+        "forall(lambda n: (n in extra) == beyond(n))"],
+        modifies=['MARKED', 'FOUND_MARKED', 'REMOVED'])},
+    canary=[("extra = set(found.nodes) - set(match.values())", "extra = set(found.nodes)"),
+            ("found.nodes[idx]['PTM_atom'] = True", "pass"),
+            ("if molecule.nodes[idx].get('mutation') or molecule.nodes[idx].get('modification'):", "if True:")],
+)
+CONTRACTS.append(mark_extra)
